@@ -257,6 +257,37 @@ let sweep_operands ~is_macro (k : bool -> bool -> int list -> unit) =
           done) (if ty = 7 || ty = 10 then [ [0] ] else lebs)) [false; true]) (if is_macro then [false; true] else [false]))
     [1; 2; 3; 5; 6; 7; 8; 9; 10; 11; 12; 0xff]
 
+(* ------------------------------------------------------------------ compiler-built .debug_macro sections *)
+let read_file p : int list option =
+  try
+    let ic = open_in_bin p in
+    let n = in_channel_length ic in
+    let b = really_input_string ic n in
+    close_in ic; Some (List.init n (fun i -> Char.code b.[i]))
+  with _ -> None
+(* (variant, section) for every corpus variant that has a debug_macro section (gcc -g3: GNU v4 extension and DWARF 5) *)
+let corpus_macro () : (string * int list) list =
+  Array.to_list (S_c01.variants ()) |> List.filter_map (fun v ->
+    match read_file (Filename.concat (Filename.concat (S_c01.corpus_dir ()) v) "debug_macro") with
+    | Some l when l <> [] -> Some (v, l)
+    | _ -> None)
+(* offsets of the units of a section, found by walking it with the MODEL: a unit ends after its zero type byte *)
+let unit_offsets be (l : int list) : int list =
+  let sect = bytes_of_ints l in
+  let total = List.length l in
+  let rec go off acc =
+    if off >= total || List.length acc > 4096 then List.rev acc else
+    match MacroRd.get_macros be sect (n_of_int off) with
+    | Res.Ok it ->
+        let rec run (it : MacroRd.miter) =
+          match MacroRd.macro_next true be it with
+          | (Res.Ok None, _) -> if it.MacroRd.mi_input = [] then total else total - List.length it.MacroRd.mi_input + 1
+          | (Res.Ok (Some _), it') -> run it'
+          | _ -> total in
+        go (run it) (off :: acc)
+    | _ -> List.rev (off :: acc) in
+  go 0 []
+
 let flag_set_ex = [ 0; 1; 2; 3; 4; 5; 6; 7; 8; 0xf8; 0xfb; 0xff ]
 let header_ints flags =
   [0x05; 0x00; flags] @ (if flags land 2 <> 0 then List.init (if flags land 1 <> 0 then 8 else 4) (fun i -> 0xa0 + i) else [])
@@ -285,7 +316,7 @@ let () =
         case_info emit be off l
       done);
   register "c0101.macro"
-    ~doc:"DebugMacro::get_macros (v5 unit header) + MacroIter to exhaustion (errors ignored): every section of <= 3 bytes over a 15-symbol alphabet, 12 flag bytes x every body of <= 3 symbols, all 256 flag bytes, every type byte in both formats, operand truncation sweep x format x byte order; then structured units (all DW_MACRO kinds, 32/64-bit, debug_line_offset, operands-table flag, unknown flag bits) with boundary LEB/offset values, over-long LEBs, mutations, offsets beyond the section"
+    ~doc:"DebugMacro::get_macros (v5 unit header) + MacroIter to exhaustion (errors ignored): every section of <= 3 bytes over a 15-symbol alphabet, 12 flag bytes x every body of <= 3 symbols, all 256 flag bytes, every type byte in both formats, operand truncation sweep x format x byte order, every unit of every compiler-built .debug_macro section of the corpus (gcc -g3, GNU v4 and DWARF 5); then structured units (all DW_MACRO kinds, 32/64-bit, debug_line_offset, operands-table flag, unknown flag bits) with boundary LEB/offset values, over-long LEBs, mutations, offsets beyond the section"
     (fun ~seed ~n emit ->
       let z0 = Z.zero in
       iter_strings alpha 3 (fun l -> case_macro emit false z0 l);
@@ -309,10 +340,25 @@ let () =
         List.iter (fun line -> case_macro emit be z0 (header_ints ((if fmt64 then 1 else 0) lor (if line then 2 else 0)) @ l)) [false; true]);
       List.iter (fun off -> case_macro emit false off [0x05; 0x00; 0x00; 0x04; 0x00])
         [Z.zero; Z.one; Z.of_int 2; Z.of_int 3; Z.of_int 4; Z.of_int 5; Z.of_int 6; p2 32; p2 63; Z.pred (p2 64)];
+      (* compiler output: every unit of every corpus .debug_macro section, read from its own offset *)
+      let corpus = List.map (fun (v, l) -> (v, l, unit_offsets false l)) (corpus_macro ()) in
+      List.iter (fun (_, l, offs) -> List.iter (fun off -> case_macro emit false (Z.of_int off) l) offs) corpus;
+      let corpus = Array.of_list corpus in
       let r = mk_rng (seed * 2 + 2) in
       for _ = 1 to n do
-        let (be, off, l) = gen_case r ~is_macro:true in
-        case_macro emit be off l
+        if Array.length corpus > 0 && rand_int r 40 = 0 then begin
+          (* a compiler-built section with one or two damaged bytes, from a unit offset or from anywhere *)
+          let (_, l, offs) = pick r corpus in
+          let len = List.length l in
+          let k1 = rand_int r len and k2 = rand_int r len in
+          let v1 = pick r [| 0; 0xff; 0x80; 0x0d; 1; 5 |] and two = rand_bool r in
+          let l' = List.mapi (fun i b -> if i = k1 then v1 else if two && i = k2 then rand_int r 256 else b) l in
+          let off = if rand_int r 4 = 0 then rand_int r (len + 2) else pick r (Array.of_list offs) in
+          case_macro emit false (Z.of_int off) l'
+        end else begin
+          let (be, off, l) = gen_case r ~is_macro:true in
+          case_macro emit be off l
+        end
       done);
   register "c0101.rt"
     ~doc:"encoder round trip (spec kind): well-formed entry lists of every DW_MACINFO / DW_MACRO kind, 32/64-bit offsets, both byte orders, header flags with debug_line_offset and unknown bits, boundary line/index/offset values, any prefix and any bytes after the terminator; expected = the entry list itself"
